@@ -255,7 +255,12 @@ func (it *Interp) runPath(fn *ssa.Function, prefix []int) (end string) {
 				rep.Outside[x.msg]++
 				end = "outside: " + x.msg
 			case "unwind":
-				rep.Unwind[x.msg]++
+				if it.cfg.UnwindViolation {
+					// termination is part of the property: running into the iteration bound is reported
+					rep.addViolation(it, "non-termination", x.msg, nil)
+				} else {
+					rep.Unwind[x.msg]++
+				}
 				end = "unwind: " + x.msg
 			case "inconclusive":
 				rep.Inconclusive[x.msg]++
@@ -607,11 +612,20 @@ func nativeReplay(spec *Spec, rf *ReplayFile, path string, workDir string) (map[
 	if bout, err := build.CombinedOutput(); err != nil {
 		return nil, string(bout), fmt.Errorf("building replay test failed: %v\n%s", err, bout)
 	}
-	cmd := exec.Command(bin, "-test.run", "^TestZZReplay$", "-test.v", "-test.timeout", "300s")
+	testTimeout := "300s"
+	for _, c := range rf.Cases {
+		if c.Label == "non-termination" {
+			testTimeout = "20s"
+		}
+	}
+	cmd := exec.Command(bin, "-test.run", "^TestZZReplay$", "-test.v", "-test.timeout", testTimeout)
 	cmd.Dir = workDir
 	cmd.Env = append(os.Environ(), "ZZVERIF_REPLAY="+path)
 	out, _ := cmd.CombinedOutput()
 	os.Remove(bin)
+	if testTimeout == "20s" && strings.Contains(string(out), "test timed out") {
+		out = append(out, []byte("\nREPLAY-CASE cex VIOLATION non-termination (the native run did not return within 20 s)\n")...)
+	}
 	if raceBuild && strings.Contains(string(out), "WARNING: DATA RACE") {
 		out = append(out, []byte("\nREPLAY-CASE cex VIOLATION data-race (reported by the Go race detector)\n")...)
 	}
